@@ -33,7 +33,7 @@ type c08Scenario struct {
 	Ops            []c08Op    `json:"ops"`
 	Tasks          int        `json:"tasks"`
 	NotConnected   string     `json:"sends_without_a_connection,omitempty"` // never-connected | dial-refused
-	BackPressure   int        `json:"backpressure_window,omitempty"` // >0: the server's receive window; it stops reading for a while
+	BackPressure   int        `json:"backpressure_window,omitempty"`        // >0: the server's receive window; it stops reading for a while
 	StallMs        int        `json:"server_stops_reading_ms,omitempty"`
 	FailWrite      int        `json:"fail_write_j"` // j-th socket write after establishment fails (0: none)
 	Partial        int        `json:"fail_partial_bytes"`
